@@ -651,6 +651,10 @@ class Message:
                 self.tsig.add(new_tsig)
                 if multi:
                     self.tsig_ctx = ctx
+            if r.was_padded:
+                # The padding was computed for an uncompressed TSIG owner name
+                # (see _compute_tsig_reserve()), so do not compress it here.
+                r.compress = {}
             r.add_rrset(dns.renderer.ADDITIONAL, self.tsig)
             r.write_header()
         wire = r.get_wire()
